@@ -791,7 +791,9 @@ func genACase(r *rand.Rand) *aCase {
 			cs.SrcMode = "namesakes"
 			srcSet = pick(r, namesakeSets)
 			nsrc = len(srcSet)
-		case k < 42:
+		case k < 42 && len(cs.Spam.Rules) == 0:
+			// (with rules on the source name a renamed id would fall under several
+			// thresholds: that is FINDINGS.md F4, exercised in Part B)
 			cs.SrcMode = "renamed"
 		}
 	}
